@@ -79,6 +79,17 @@ Theorem C20_targets : forall ifs l cs0 oracle n,
 Proof. exact qremote_targets_correct. Qed.
 Print Assumptions C20_targets.
 
+(** the port on which main() filters the local addresses is the SMTP port, which is also the
+    default of conn.c and of smtproute(); the marks of tryconn are ordered as the proofs need
+    (values regenerated from the C on every run) *)
+Theorem C20_ports :
+  FILTER_PORT = 25%N /\ DEFAULT_PORT = 25%N /\ ROUTE_DEFAULT_PORT = 25%N
+  /\ (MX_PRIORITY_IMPLICIT <= TRYCONN_FRESH_MAX < MX_PRIORITY_USED)%N
+  /\ (TRYCONN_FRESH_MAX < MX_PRIORITY_CURRENT)%N /\ MX_PRIORITY_USED <> MX_PRIORITY_CURRENT
+  /\ (65535 <= TRYCONN_FRESH_MAX)%N.
+Proof. repeat split; try reflexivity; try discriminate. Qed.
+Print Assumptions C20_ports.
+
 (** the hypotheses are met by a non-trivial input: finding F-C20-1, [A v6/10, B v4/20, C v6/20],
     is sorted to A, C, B; with B's address being the local one and the first connect() failing
     the attempts are A then C, then -ENOENT. *)
